@@ -30,7 +30,8 @@ def _run(params):
     out = {'ok': True, 'params': params, 'cls': s['reserv']['class'],
            'R': {k: R[k] for k in ('Trock', 'depth', 'gradient', 'layerthickness', 'numseg', 'Tsurf', 'Tmax', 'Tresoutput', 'timevector', 'drawdp', 'resoption') if k in R},
            'W': {k: W[k] for k in ('ProducedTemperature', 'redrill', 'maxdrawdown', 'ProdTempDrop', 'rameyoptionprod', 'Tinj')},
-           'Tinj_read': s0['wellbores']['p']['Tinj']['value'], 'depth_read': s0['reserv']['p']['depth'],
+           # injection temperature the reservoir model sees: the value read + the injection-wellbore gain (added once in Reservoir.Calculate)
+           'Tinj_read': s0['wellbores']['p']['Tinj']['value'] + s0['wellbores']['p']['tempgaininj']['value'], 'depth_read': s0['reserv']['p']['depth'],
            'raw_grads': s0['reserv']['p']['gradient']['value'], 'raw_thick': s0['reserv']['p']['layerthickness']['value']}
     return out
 
@@ -64,6 +65,16 @@ def gen_cases(rng, n, thorough=False):
         p['Drawdown Parameter'] = rng.choice([0.0, 0.002, 0.005, 0.01, 0.03, 0.1])
         p['Maximum Drawdown'] = rng.choice([1, 1, 0.5, 0.2, 0.1, 0.03])
         p['Production Wellbore Temperature Drop'] = rng.choice([0, 2, 5])
+        p['Injection Wellbore Temperature Gain'] = rng.choice([0, 0, 5, -3])
+        if rng.random() < 0.12:
+            # district heating runs the reservoir / wellbore / plant chain twice
+            L = rng.choice([5, 10])
+            q = geo.base_params(rng.choice([1, 2, 3]), 2, 7, L=L, n=rng.choice([2, 4]))
+            for kk in ('End-Use Option', 'Power Plant Type', 'Plant Lifetime', 'Time steps per year', 'District Heating Demand Option', 'District Heating Demand File Name',
+                       'District Heating Demand Data Time Resolution', 'District Heating Demand Data Column Number', 'Peaking Fuel Cost Rate', 'Peaking Boiler Efficiency'):
+                p[kk] = q[kk]
+            p['Drawdown Parameter'] = rng.choice([0.03, 0.1])
+            p['Maximum Drawdown'] = rng.choice([0.1, 0.2])
         if thorough or rng.random() < 0.08:
             z = rng.random()
             if z < 0.5:
